@@ -1,16 +1,63 @@
 import ScyllaVerif.Model.Util
 import ScyllaVerif.Model.Ring
 import ScyllaVerif.Model.Replicas
+import ScyllaVerif.Model.Refresh
 import ScyllaVerif.Drive.Topology
 /-! Line-protocol driver for C04.  Case: `q<kind> <topology> <keyspace strategies> <strategy> <dc|-> <token>`
 (syntax in `Drive/Topology.lean`).  Output: `len=… iter=… choose=… ord=… ep=… epl=… epu=…` — the size, the iteration order,
 `choose` for every index `0..len`, the ring-ordered view, and `get_token_endpoints` for the first keyspace (`k0`), the last one, and an unknown keyspace.
+A history case `h<kind> <n> (<mode> <topology> <strategies>)×n <strategy> <dc|-> <token>` builds a cluster (`n`) and
+applies refreshes (`r` full, `t` topology only); its output is the observation after every step, joined by ` / `.
 Everything is deterministic (the random index of `choose` is swept by a scripted RNG), so `impl` is ignored. -/
 namespace ScyllaVerif.Drive.C04
-open ScyllaVerif.Util ScyllaVerif.Ring ScyllaVerif.Replicas ScyllaVerif.Drive.Topology
+open ScyllaVerif.Util ScyllaVerif.Ring ScyllaVerif.Replicas ScyllaVerif.Refresh ScyllaVerif.Drive.Topology
 
 def optIds (l : List (Option Node)) : String :=
   if l.isEmpty then "-" else ",".intercalate (l.map (fun o => match o with | some n => toString n.id | none => "x"))
+
+/-- The observation line of one locator state: all views of the queried replica set and `get_token_endpoints`
+for the first, the last and an unknown keyspace. -/
+def observeLine (loc : Locator) (pre : List Strategy) (strat : Strategy) (dc : Option Nat) (tok : Int) : String :=
+  let rs := replicasForToken loc tok strat dc
+  let len := rs.len loc
+  let chosen := (List.range len).map (fun i => rs.choose loc i)
+  let ep := tokenEndpoints loc pre.head? tok
+  let epl := tokenEndpoints loc pre.getLast? tok
+  let epu := tokenEndpoints loc none tok
+  s!"len={len} iter={nodeIds (rs.iter loc)} choose={optIds chosen} ord={nodeIds (rs.ordered loc)} ep={nodeIds ep} epl={nodeIds epl} epu={nodeIds epu}"
+
+/-- The peers as the hook hands them to the driver: address = position in the list; `accepted` = the host filter's verdict
+(false for the rejecting hooks, true for the accepting ones). -/
+def toMPeers (t : Topology) (accepted : Bool) : List MPeer :=
+  (t.zipIdx).map (fun (p, i) => ⟨p.node, i, p.tokens, accepted⟩)
+
+/-- History steps `<mode> <topology> <strategies>`, mode `n` (new), `r` (full refresh), `t` (topology only,
+strategies written `=`), `R` / `T` (the same with an accepting host filter).  Returns the observation after every step, through the model of
+`calculate_new_topology` (`Model/Refresh.lean`); the hook clears `is_enabled` before a refresh and sets it after. -/
+def runHistory (strat : Strategy) (dc : Option Nat) (tok : Int) :
+    List String → Option CState → List String → Option (List String)
+  | [], _, acc => some acc.reverse
+  | mode :: topo :: pre :: rest, st, acc =>
+    match parseTopology topo with
+    | none => none
+    | some t =>
+      let peers := toMPeers t (mode == "R" || mode == "T")
+      let ids := t.map (·.node.id)
+      let next : Option CState :=
+        match mode, st with
+        | "n", none => (parseStrategies pre).map (fun S => CState.fresh peers S)
+        | "r", some st => (parseStrategies pre).map (fun S => (st.setEnabled []).refresh peers S)
+        | "t", some st => if pre == "=" then some ((st.setEnabled []).refreshTopology peers) else none
+        -- the accepting hooks: host filter accepts every peer, the previous nodes stay enabled
+        | "R", some st => (parseStrategies pre).map (fun S => st.refresh peers S)
+        | "T", some st => if pre == "=" then some (st.refreshTopology peers) else none
+        | _, _ => none
+      match next with
+      | none => none
+      | some st' =>
+        let st' := st'.setEnabled ids
+        runHistory strat dc tok rest (some st') (observeLine st'.loc st'.keyspaces strat dc tok :: acc)
+  | _, _, _ => none
 
 def run (case _impl : String) : String :=
   match words case with
@@ -19,16 +66,24 @@ def run (case _impl : String) : String :=
     match parseTopology topo, parseStrategies pre, parseStrategy strat, parseOptNat dc, tok.toInt? with
     | some topo, some pre, some strat, some dc, some tok =>
       if !i64ok tok then "bad-case" else
-      let tok := tokenNew tok
-      let loc := Topology.locator topo pre
-      let rs := replicasForToken loc tok strat dc
-      let len := rs.len loc
-      let chosen := (List.range len).map (fun i => rs.choose loc i)
-      let ep := tokenEndpoints loc pre.head? tok
-      let epl := tokenEndpoints loc pre.getLast? tok
-      let epu := tokenEndpoints loc none tok
-      s!"len={len} iter={nodeIds (rs.iter loc)} choose={optIds chosen} ord={nodeIds (rs.ordered loc)} ep={nodeIds ep} epl={nodeIds epl} epu={nodeIds epu}"
+      observeLine (Topology.locator topo pre) pre strat dc (tokenNew tok)
     | _, _, _, _, _ => "bad-case"
+  | h :: n :: rest =>
+    if !h.startsWith "h" then "bad-case" else
+    match n.toNat? with
+    | none => "bad-case"
+    | some n =>
+      if n = 0 || rest.length != 3 * n + 3 then "bad-case" else
+      match rest.drop (3 * n) with
+      | [strat, dc, tok] =>
+        match parseStrategy strat, parseOptNat dc, tok.toInt? with
+        | some strat, some dc, some tok =>
+          if !i64ok tok then "bad-case" else
+          match runHistory strat dc (tokenNew tok) (rest.take (3 * n)) none [] with
+          | some lines => " / ".intercalate lines
+          | none => "bad-case"
+        | _, _, _ => "bad-case"
+      | _ => "bad-case"
   | _ => "bad-case"
 
 end ScyllaVerif.Drive.C04
